@@ -89,8 +89,8 @@ package fun
 //@   props C14 C15
 //@   option callbacks-may-panic
 //@   requires wf != nil && hook != nil
-//@   ensures calls(hook) == old(calls(hook)) + (wf == hook ? 2 : 1)
-//@   ensures-panic calls(hook) == old(calls(hook)) + (wf == hook ? 2 : 1)
+//@   ensures calls(hook) == old(calls(hook)) + 1
+//@   ensures-panic calls(hook) == old(calls(hook)) + 1
 //@   panics when true
 
 // Launch: the group is incremented strictly before the goroutine starts, and
@@ -348,6 +348,7 @@ package fun
 //@   props C02
 //@   option noframe
 //@   option atomics-sequential
+//@   modifies calls(i.operation), calls(i.err.handler), calls(i.closer.op), atomics, onces
 //@   requires i != nil && ctx != nil && i.err.handler != nil && (oncedone(i.closer.once) ==> iclosed(i))
 //@   ensures oncedone(i.closer.once) ==> iclosed(i)
 //@   ensures closed: old(i.operation == nil || iclosed(i)) ==> result1 == io_EOF && calls(i.operation) == old(calls(i.operation))
@@ -362,6 +363,7 @@ package fun
 //@   props C02
 //@   option noframe
 //@   option atomics-sequential
+//@   modifies calls(i.operation), calls(i.err.handler), calls(i.closer.op), atomics, onces, i.value
 //@   requires i != nil && ctx != nil && i.err.handler != nil && (oncedone(i.closer.once) ==> iclosed(i))
 //@   ensures oncedone(i.closer.once) ==> iclosed(i)
 //@   ensures advanced: result ==> calls(i.operation) > old(calls(i.operation)) && i.value == callret0(i.operation, calls(i.operation) - 1) && callret1(i.operation, calls(i.operation) - 1) == nil
